@@ -4,7 +4,7 @@ import re
 from tools.vlib import *
 
 PID = "C21"
-READY = False
+READY = True
 MANIFEST = {
     "level_text": "Lean 4 theorems about a model of Node::handle_announce's admission chain (payload abstracted to the facts it "
                   "checks), the per-peer throttle, failure history and lockout, for every timed history of announces from any number "
